@@ -8,7 +8,7 @@
 From NV Require Import Base.Tac Base.PyVal Base.Bits Model.Ip.
 From NV Require Model.SrcPrelude Model.Span Model.Partition Model.Merge Model.Sets Model.Contains Model.Classify
   Model.ListLike Model.Iana Model.Order Model.AddrOps Model.Conv Model.Subnet Model.Splitter Model.NetText
-  Model.AddrText Model.Glob.
+  Model.AddrText Model.Glob Model.PySlice.
 From NV Require Proofs.C02 Proofs.C04 Proofs.C09 Proofs.C11 Proofs.C12_Lex.
 Open Scope Z_scope.
 
@@ -106,6 +106,11 @@ Lemma coh_order_key o :
   end.
 Proof. destruct o; reflexivity. Qed.
 Lemma coh_order_range_size s e : Order.range_size s e = ListLike.r_size (ListLike.RRange 4 s e).
+Proof. reflexivity. Qed.
+
+(* Python: sys.maxsize (`_sys_maxint`), the bound of IPSet.__len__ (Sets) and of IPListMixin.__len__ / slicing
+   (ListLike through PySlice) *)
+Lemma coh_sys_maxint : Sets.sys_maxint = PySlice.ssize_max.
 Proof. reflexivity. Qed.
 
 (* the arithmetic spellings (Proofs/C09 first_of/last_of/cidr_of over model blocks; Proofs/C04 lo/hi) need the value
